@@ -29,6 +29,7 @@ var syncTargets = []string{
 	"/repo/regattaserver/encoding/gzip/grpc.go",
 	"/repo/regattaserver/encoding/snappy/grpc.go",
 	"/repo/regattaserver/encoding/zstd/grpc.go",
+	"/repo/storage/cluster/view.go", // RWMutex becomes cooperative under the explorer (C19 part c)
 }
 
 // stmtTargets: functions whose every statement gets a scheduling point (vp.Point("file:line")).
@@ -40,6 +41,7 @@ var stmtTargets = map[string][]string{
 	"/repo/storage/table/fsm/iter.go":                {"iterate"},
 	"/repo/storage/table/fsm/snapshot_snapshot.go":   {"recover"},
 	"/repo/storage/table/fsm/snapshot_checkpoint.go": {"recover"},
+	"/repo/storage/cluster/view.go":                  {"update", "shardInfo"}, // mergeShardInfo is a pure function of its value arguments,
 }
 
 // instrument inserts `vp.Point("base:line"); ` in front of every statement that is an element of a
@@ -163,7 +165,7 @@ func main() {
 			fail("target %s: import \"sync\" not found - cannot instrument", t)
 		}
 		s = strings.Replace(s, "\t\"sync\"\n", "\tsync \"github.com/jamf/regatta/verifvp/vsync\"\n", 1)
-		o := filepath.Join(out, fmt.Sprintf("sync%d_grpc.go", i))
+		o := filepath.Join(out, fmt.Sprintf("sync%d_%s", i, filepath.Base(t)))
 		if err := os.WriteFile(o, []byte(s), 0o644); err != nil {
 			fail("%v", err)
 		}
